@@ -118,3 +118,28 @@ Print Assumptions C12_negation.
 Print Assumptions C12_reciprocal.
 Print Assumptions C12_monotone_map.
 Print Assumptions C12_operations_are_translated.
+
+(* ISOTONICITY ACROSS THE ROUTES OF THE PRODUCT (Proofs/ComposeTight.v).  Best possible => inside every sound bound, also for wider operands:
+   if (BL, BR) bounds the outcomes of every pair of samples bounded by X', Y' and X, Y lie inside X', Y', the Frechet bounds of X, Y - attained
+   by explicit couplings of the bounding distributions (C02) - lie inside (BL, BR) at every step ... *)
+From PUN Require Import Proofs.Compose Proofs.ComposeOps Proofs.ComposeTight Model.PboxArith.
+Theorem C12_tight_inside_sound (op : R -> R -> R) (D : R -> Prop) n (XL XR YL YR XL' XR' YL' YR' BL BR : list R) i :
+  (forall a a', D a -> a <= a' -> D a') -> (forall a a' b b', D a -> D b -> a <= a' -> b <= b' -> op a b <= op a' b') ->
+  length XL = n -> length XR = n -> length YL = n -> length YR = n ->
+  Rsorted XL -> Rsorted XR -> Rsorted YL -> Rsorted YR -> ple XL XR -> ple YL YR ->
+  (forall j, (j < n)%nat -> D (nth j XL 0)) -> (forall j, (j < n)%nat -> D (nth j YL 0)) ->
+  ple XL' XL -> ple XR XR' -> ple YL' YL -> ple YR YR' -> length BL = n ->
+  (forall u v, bounds XL' XR' u -> bounds YL' YR' v -> bounds BL BR (map2 op u v)) -> (i < n)%nat ->
+  nth i BL 0 <= frechet_left RN op XL YL i /\ frechet_right RN op XR YR i <= nth i BR 0.
+Proof. intros. eapply tight_inside_sound; eauto. Qed.
+(* ... in particular the product under no dependence assumption: operands with non-negative lower bounds (classic route) inside operands of ANY
+   sign (classic, negative or zero-straddling route): the product of the wider operands contains the Frechet bounds of the narrower product *)
+Theorem C12_product_isotone_into_any_route steps plo phi (X Y X' Y' r : list R * list R) : (0 < steps)%nat ->
+  WF steps X -> WF steps Y -> WF steps X' -> WF steps Y' ->
+  (forall j, (j < steps)%nat -> 0 <= nth j (fst X) 0) -> (forall j, (j < steps)%nat -> 0 <= nth j (fst Y) 0) ->
+  ple (fst X') (fst X) -> ple (snd X) (snd X') -> ple (fst Y') (fst Y) -> ple (snd Y) (snd Y') ->
+  pmul RN steps plo phi DF X' Y' = Ok r ->
+  forall i, (i < steps)%nat -> nth i (fst r) 0 <= frechet_left RN Rmult (fst X) (fst Y) i /\ frechet_right RN Rmult (snd X) (snd Y) i <= nth i (snd r) 0.
+Proof. exact (product_isotone_into_any_route steps plo phi X Y X' Y' r). Qed.
+Print Assumptions C12_tight_inside_sound.
+Print Assumptions C12_product_isotone_into_any_route.
